@@ -69,6 +69,8 @@ pub uninterp spec fn si<T>(s: SetIter<T>) -> Set<T>;
 pub uninterp spec fn sis(s: SetIter<String>) -> Set<Seq<char>>;
 impl HashSet<String> {
     #[verifier::external_body]
+    pub fn new() -> (r: HashSet<String>) ensures hss(r) =~= Set::<Seq<char>>::empty() { unimplemented!() }
+    #[verifier::external_body]
     pub fn remove<Q: KeyLike + ?Sized>(&mut self, k: &Q) -> (r: bool) ensures hss(*final(self)) == hss(*old(self)).remove(k.key()) { unimplemented!() }
     #[verifier::external_body]
     pub fn union(&self, o: &HashSet<String>) -> (r: SetIter<String>) ensures sis(r) == hss(*self).union(hss(*o)) { unimplemented!() }
